@@ -34,7 +34,7 @@ pub enum G {
   EllCap,
 }
 
-#[derive(Clone, Copy)]
+#[derive(Clone, Copy, Debug)]
 pub struct Leaf {
   pub kind: u16,
   pub named: bool,
@@ -324,6 +324,49 @@ mod tests {
     assert!(pat.match_node(g.root()).is_none());
     assert!(!legal(&gv, &goals, 3, &cands, 3, 1));
   }
+
+  /// native sweep validating the terminals-only oracle: every pair of goal leaves x every
+  /// candidate list of 2 or 3 leaves x 5 strictness levels
+  #[test]
+  fn tt_native_sweep() {
+    let mut vals = Vec::new();
+    for kind in [K_IDENT, K_NUMBER, K_COMMENT, K_PUNCT_A, K_PUNCT_B] {
+      if kind_is_named(kind) {
+        vals.push(leaf(kind, b'x'));
+        vals.push(leaf(kind, b'y'));
+      } else {
+        vals.push(leaf(kind, anon_text(kind)));
+      }
+    }
+    let gv = [G::T, G::T];
+    let (mut unsound, mut incomplete, mut total) = (0, 0, 0);
+    for g0 in &vals { for g1 in &vals {
+      let mut goals = [*g0; KMAX];
+      goals[1] = *g1;
+      for k in 2..=3usize {
+        let n = vals.len();
+        let combos = n.pow(k as u32);
+        for c in 0..combos {
+          let mut cands = [vals[0]; KMAX];
+          let mut cc = c;
+          for i in 0..k { cands[i] = vals[cc % n]; cc /= n; }
+          for s in 0..5u8 {
+            let gl = goal_list(&gv, &goals, 2);
+            let mut src = [b' '; 2 * KMAX];
+            let d = flat_tree_w(&cands, k, K_CALL, &mut src, 2);
+            let g = mk_grep(as_str(&src, 2 * k), d);
+            let got = match_children_end(&gl, &g.root(), &strictness_of(s)).is_some();
+            let want = legal(&gv, &goals, 2, &cands, k, s);
+            total += 1;
+            if got && !want { unsound += 1; if unsound <= 5 { println!("UNSOUND g={:?},{:?} c={:?} s={s}", g0, g1, &cands[..k]); } }
+            if !got && want { incomplete += 1; }
+          }
+        }
+      }
+    }}
+    println!("total {total} unsound {unsound} incomplete {incomplete}");
+    assert_eq!(unsound, 0);
+  }
 }
 
 #[cfg(kani)]
@@ -398,6 +441,54 @@ mod proofs {
     std::mem::forget(gl);
     std::mem::forget(g);
   }
+
+  /// terminals only, concrete strictness: with no meta variable among the goals the
+  /// `ComputeEnd` aggregator is a faithful acceptance test, so this is the soundness clause
+  /// of the sibling alignment itself (`match_nodes_impl_recursive`,
+  /// `match_single_node_while_skip_trivial`, trailing check) for one strictness level
+  fn tt_sound(gv: &[G], k: usize, s: u8) {
+    let m = gv.len();
+    let mut goals = [Leaf { kind: K_IDENT, named: true, text: b'x' }; KMAX];
+    let mut cands = goals;
+    let mut i = 0;
+    while i < KMAX {
+      if i < m {
+        goals[i] = any_leaf(false);
+      }
+      if i < k {
+        cands[i] = any_leaf(false);
+      }
+      i += 1;
+    }
+    let gl = goal_list(gv, &goals, 2);
+    let mut src = [b' '; 2 * KMAX];
+    let d = flat_tree_w(&cands, k, K_CALL, &mut src, 2);
+    let g = mk_grep(as_str(&src, 2 * k), d);
+    let got = match_children_end(&gl, &g.root(), &strictness_of(s)).is_some();
+    let want = legal(gv, &goals, m, &cands, k, s);
+    kani::cover!(got);
+    kani::cover!(!got);
+    if got {
+      assert!(want, "reported match has no legal alignment");
+    }
+    std::mem::forget(gl);
+    std::mem::forget(g);
+  }
+  macro_rules! tt_harness {
+    ($name:ident, [$($g:expr),*], $k:expr, $s:expr) => {
+      #[kani::proof]
+      #[kani::unwind(8)]
+      fn $name() {
+        tt_sound(&[$($g),*], $k, $s);
+      }
+    };
+  }
+  tt_harness!(c03_tt_ast_k2, [G::T, G::T], 2, 2);
+  tt_harness!(c03_tt_smart_k2, [G::T, G::T], 2, 1);
+  tt_harness!(c03_tt_ast_k3, [G::T, G::T], 3, 2);
+  tt_harness!(c03_tt_relaxed_k3, [G::T, G::T], 3, 3);
+  tt_harness!(c03_tt_cst_k2, [G::T, G::T], 2, 0);
+  tt_harness!(c03_tt_signature_k2, [G::T, G::T], 2, 4);
 
   /// one harness per (goal variant vector, number of candidate children): the symbolic
   /// execution is single-threaded, the machine has 16 cores
